@@ -66,11 +66,11 @@ def main():
             demo_src = re.sub(r'/tmp/wt/C\d\d', scratch, demo_src)
             demo = os.path.join(evdir, 'demo.py')
             open(demo, 'w').write(demo_src)
-            env = dict(os.environ, PYTHONPATH=scratch, PYTHONDONTWRITEBYTECODE='1')
+            env = dict(os.environ, PYTHONPATH=scratch, PYTHONDONTWRITEBYTECODE='1', C02_CORPUS=os.path.join(HOME, 'vendor', 'commonmark-0.30.json'))
             r1 = sh([PY, demo], env=env, cwd=evdir, timeout=900)
             demo0 = os.path.join(evdir, 'demo0.py')
             open(demo0, 'w').write(re.sub(r'/tmp/wt/C\d\d', REPO, open(os.path.join(d, 'demo.py')).read()))
-            r0 = sh([PY, demo0], env=dict(os.environ, PYTHONPATH=REPO, PYTHONDONTWRITEBYTECODE='1'), cwd=evdir, timeout=900)
+            r0 = sh([PY, demo0], env=dict(os.environ, PYTHONPATH=REPO, PYTHONDONTWRITEBYTECODE='1', C02_CORPUS=os.path.join(HOME, 'vendor', 'commonmark-0.30.json')), cwd=evdir, timeout=900)
             meta['demo_exit_with_change'] = r1.returncode
             meta['demo_exit_without_change'] = r0.returncode
             meta['checks'] = {}
